@@ -101,7 +101,8 @@ class ClassInfo:
     def __init__(self, node, module, name):
         self.node = node
         self.module = module
-        self.name = name
+        self.name = name          # unique key (short name; 'py.X' for usim.py classes that shadow a core name)
+        self.pyname = name        # name in the source
         self.base_exprs = [b for b in node.bases]
         self.methods = {}
         self.attrs = {}     # class-level simple assignments: name -> ast expr
@@ -155,6 +156,15 @@ class RepoIndex:
                 self.modules[rel] = mod
         for mod in self.modules.values():
             self._index_module(mod)
+        # unique class keys: classes of the SimPy layer that shadow a core class get a 'py.' prefix
+        for short, lst in list(self.classes_by_name.items()):
+            if len(lst) > 1:
+                keep = [c for c in lst if not c.module.name.startswith(self.package + ".py")]
+                for c in lst:
+                    if c not in keep or len(keep) != 1:
+                        c.name = "py." + c.pyname if c.module.name.startswith(self.package + ".py") else c.module.name + "." + c.pyname
+                        self.classes_by_name.setdefault(c.name, []).append(c)
+                self.classes_by_name[short] = [c for c in lst if c.name == short]
 
     def _index_module(self, mod):
         def resolve_from(level, module):
@@ -203,7 +213,7 @@ class RepoIndex:
     def _index_class(self, ci, body, debug=False):
         for node in body:
             if isinstance(node, (ast.FunctionDef, ast.AsyncFunctionDef)):
-                fi = FuncInfo(node, ci.module, ci.name + "." + node.name, cls=ci)
+                fi = FuncInfo(node, ci.module, ci.pyname + "." + node.name, cls=ci)
                 # property setters etc. are not used in usim
                 if debug:
                     ci.debug_methods[node.name] = fi
